@@ -484,6 +484,36 @@ def stage_voxel(ctx):
                           dict(kind="voxel", r=r, errs=errs))
 
 
+SCAT_DIR = "holopy/scattering/scatterer/"
+_OVL = {"cartesian_distance(s1.center, s2.center)": "dist", "np.max(s1.r)": "r1", "np.max(s2.r)": "r2"}
+
+
+def _src_items():
+    from harness.lib import pysrc
+    items = [dict(file=SCAT_DIR + "sphere.py", qualname="Sphere.indicators (lambda)", name="sphere_ind_src",
+                  fn=lambda repo: pysrc.translate_lambda_list(repo, SCAT_DIR + "sphere.py", "Sphere.indicators", "sphere_ind_src",
+                                                              "funcs", "rs", "points"))]
+    for cls in ("Union", "Difference", "Intersection"):
+        items.append(dict(file=SCAT_DIR + "csg.py", qualname=cls + ".in_domain", name=cls.lower() + "_src",
+                          fn=lambda repo, cls=cls: pysrc.translate(
+                              repo, SCAT_DIR + "csg.py", cls + ".in_domain", cls.lower() + "_src", [("points", "obj")], "bool",
+                              opaque_bools={"self.s1.in_domain(points)": "in1", "self.s2.in_domain(points)": "in2"})))
+    items.append(dict(file=SCAT_DIR + "spherecluster.py", qualname="Spheres.overlaps (criterion)", name="overlap_test_src",
+                      fn=lambda repo: pysrc.translate_if_test(repo, SCAT_DIR + "spherecluster.py", "Spheres.overlaps",
+                                                              "overlap_test_src", _OVL)))
+    items.append(dict(file=SCAT_DIR + "spherecluster.py", qualname="Spheres.largest_overlap (candidate)", name="overlap_amount_src",
+                      fn=lambda repo: pysrc.translate_call_arg(repo, SCAT_DIR + "spherecluster.py", "Spheres.largest_overlap",
+                                                               "overlap_amount_src", "max", 1, _OVL)))
+    return items
+
+
+def stage_srctie(ctx):
+    from harness.lib import srctie
+    ok = srctie.run(ctx, "C20", "From Coq Require Import Lia Psatz.\nFrom HV Require Import C20.Model C20.Lemmas C20.Props.\n",
+                    _src_items())
+    ctx.count("srctie:%s" % ("ok" if ok else "broken"))
+
+
 def run(ctx):
     ctx.rule = ("shapes (spheres with 1-4 layers incl. non-monotone radii, ellipsoids, CSG trees depth<=2) x query "
                 "points (cloud + exactly on / 2^-20 inside / outside surfaces, Pythagorean directions); clusters of "
@@ -495,7 +525,16 @@ def run(ctx):
                           "warning iff overlap and enabled", "constructor rejections", "Q instance = R instance"]
     ctx.clauses_explored = ["voxelisation converges to the analytic volume (limit statement; sampled at two spacings)"]
     ctx.trusted.append("oracle: numpy sqrt inside cartesian_distance (hypothesis d*d = d2 sampled each run)")
+    ctx.clauses_proved.append(
+        "source tie: the indicator lambda of Sphere.indicators, Union / Difference / Intersection.in_domain, the overlap "
+        "criterion of Spheres.overlaps and the candidate value of Spheres.largest_overlap, translated from the current source "
+        "text on every run, are proved to be the expressions the model is built from; containment iff distance < radius, "
+        "criterion iff d < r1 + r2 and amount > 0 iff criterion restated for the translated source")
+    ctx.trusted.append("translator harness/lib/pysrc.py (lambda bodies, the single if-test of overlaps, the max() candidate of "
+                       "largest_overlap; (points**2).sum(-1) read as the squared norm of the generic point; cartesian_distance, "
+                       "np.max(s.r), sN.in_domain(points) opaque)")
     guarded(ctx, "prove", ctx.prove)
+    guarded(ctx, "source-tie", stage_srctie, ctx)
     boot.boot()
     guarded(ctx, "containment", stage_containment, ctx)
     guarded(ctx, "index_at", stage_index_at, ctx)
@@ -510,6 +549,10 @@ def replay(ctx, data):
     boot.boot()
     d = data["data"]
     kind = d.get("kind")
+    if kind == "tie":
+        ctx.prove()
+        stage_srctie(ctx)
+        return
     if kind == "translate":
         s = _tuplify(d["shape"])
         obj = build(s)
